@@ -492,7 +492,7 @@ class ModGen:
         steps = rng.randint(4, 14) if not self.big else 40
         for _ in range(steps):
             k = rng.choice(['int', 'uint', 'f', 'd', 'ld', 'data', 'str', 'ref', 'expr', 'call', 'ext', 'br', 'switch',
-                            'memform', 'alias'])
+                            'memform', 'memform', 'alias', 'negdisp'])
             if k == 'int':
                 mix('i:%d' % interesting_ints(rng))
             elif k == 'uint':
@@ -584,6 +584,17 @@ class ModGen:
                 mix('m:i64:0:p:ix:%d:-:-' % sc)
                 E('insn mov r:ix i:5')
                 mix('m:u8:%d:p:ix:8:-:-' % 8)
+            elif k == 'negdisp':
+                # negative and large displacements, base + index * scale with every scale
+                E('insn mov m:i64:24:p:-:1:-:- r:acc')
+                E('insn add r:q r:p i:%d' % rng.choice([32, 40, 1000, 2**31]))
+                d = rng.choice([32, 40, 1000, 2**31])
+                E('insn add r:q r:p i:%d' % d)
+                mix('m:i64:%d:q:-:1:-:-' % (24 - d))
+                sc = rng.choice([1, 2, 4, 8])
+                E('insn mov r:ix i:%d' % (-(d // sc)))
+                E('insn add r:t r:q i:%d' % (d % sc))
+                mix('m:u16:24:t:ix:%d:-:-' % sc)
             elif k == 'alias':
                 E('insn mov m:i32:56:p:-:1:A:N r:acc')
                 mix('m:i32:56:p:-:1:-:N')
